@@ -212,6 +212,47 @@ def sequential_search(R, plain, drv, diverged):
                              pool=list(run["case"]["pool"]), violations=diffs[:4]))
 
 
+def mode_dependence(R):
+    """everything a commit creates outside the object files — stage file, index, cache directories — gets the permission bits the
+    process umask allows, with one worker and with the default pools alike (a wide directory: many workers create cache directories
+    at once)"""
+    import os, shutil, stat, subprocess, tempfile
+    dud = vlib.build_dud()
+    base = tempfile.mkdtemp(prefix="c13mode.", dir=vlib.scratch())
+    env0 = dict(os.environ, XDG_CONFIG_HOME=os.path.join(base, "xdg"), HOME=base, LC_ALL="C")
+
+    def one(k, env, um):
+        root = os.path.join(base, "p%d" % k)
+        os.makedirs(os.path.join(root, "data"))
+        pre = lambda: os.umask(um)
+        q = dict(cwd=root, env=env, stdout=subprocess.PIPE, stderr=subprocess.PIPE, preexec_fn=pre)
+        subprocess.run([dud, "init"], **q)
+        for j in range(1500):
+            open(os.path.join(root, "data", "f%04d" % j), "w").write("content %d" % j)
+        open(os.path.join(root, "data.yaml"), "w").write("outputs:\n  data:\n    is-dir: true\n")
+        subprocess.run([dud, "stage", "add", "data.yaml"], **q)
+        p = subprocess.run([dud, "commit"], timeout=120, **q)
+        modes = dict(rc=p.returncode, stage_file=oct(stat.S_IMODE(os.stat(os.path.join(root, "data.yaml")).st_mode)),
+                     index=oct(stat.S_IMODE(os.stat(os.path.join(root, ".dud", "index")).st_mode)))
+        cd = os.path.join(root, ".dud", "cache")
+        modes["cache_dirs"] = sorted(set(oct(stat.S_IMODE(os.stat(os.path.join(cd, d)).st_mode)) for d in os.listdir(cd) if os.path.isdir(os.path.join(cd, d))))
+        shutil.rmtree(root, ignore_errors=True)
+        return modes
+    bad = []
+    for um in (0o077, 0o027):
+        seq = one(0, dict(env0, DUD_VERIF_SHARED="0", DUD_VERIF_DEDICATED="1"), um)
+        for k in range(1, 4):
+            par = one(k, env0, um)
+            R.count("mode-dependence-%o-%d" % (um, k), True)
+            if par != seq:
+                bad.append("umask %03o: one worker leaves %s, the default pools leave %s" % (um, seq, par))
+                break
+    shutil.rmtree(base, ignore_errors=True)
+    if bad:
+        R.violation(dict(kind="property-violated-on-implementation", scenario="`dud commit` of a directory of 1500 files under a private umask",
+                         violations=["the permission bits of what commit creates depend on the schedule: " + b_ for b_ in bad]))
+
+
 def schedule_dependence(R, drv):
     """a workspace link that points at the cache path of an object which is NOT in the cache (a dangling link into the cache), next to a
     regular file that holds exactly the bytes of that object: with one worker (entries in listing order) the result is fixed; with the
@@ -301,6 +342,7 @@ def main(tier, replay=None):
     inproc(R, dud, drv, rng, tier, runs)
     if not replay:
         schedule_dependence(R, drv)
+    mode_dependence(R)
     R.absorb_audit(vlib.lean_audit(PROP))
     if tier == "thorough":
         ok, log = vlib.leanchecker(["DudModel.Props.C13"])
